@@ -31,6 +31,7 @@ import (
 	"github.com/ethereum/go-ethereum/crypto"
 
 	"verifharness/names"
+	"verifharness/sqlfault"
 	"verifharness/tr"
 )
 
@@ -49,16 +50,17 @@ type Step struct {
 	Fin       int    `json:"fin"`       // "finalize": new finalized L1 block
 	Pe        int    `json:"pe"`        // fep: the L2 block at which the prover's proof ends (0 = as requested)
 	Jump      int    `json:"jump"`      // "block": distance to the previous block with events (default 1)
+	Midblock  int    `json:"midblock"`  // "tick": while the node compiles its k-th read of the L2 bridge store, the L2 syncer stores a new block
 }
 
 type Behaviour struct {
 	Cfg struct {
-		Retryimm  bool `json:"retryimm"`
-		Maxblocks int  `json:"maxblocks"`
-		Hasprev   bool `json:"hasprev"`
-		Mode      string `json:"mode"` // pp | fep
-		L1shape   []int  `json:"l1shape"` // L1 block of each info leaf (default one per block)
-		L1steps   string `json:"l1steps"` // L1 history, one info leaf per letter (m: mainnet deposit, o: deposit on the other rollup + verification)
+		Retryimm  bool    `json:"retryimm"`
+		Maxblocks int     `json:"maxblocks"`
+		Hasprev   bool    `json:"hasprev"`
+		Mode      string  `json:"mode"`     // pp | fep
+		L1shape   []int   `json:"l1shape"`  // L1 block of each info leaf (default one per block)
+		L1steps   string  `json:"l1steps"`  // L1 history, one info leaf per letter (m: mainnet deposit, o: deposit on the other rollup + verification)
 		L1claims  [][]int `json:"l1claims"` // claim pool: [mainnet, deposit number, index of the info leaf it is made against]
 	} `json:"cfg"`
 	Steps []Step `json:"steps"`
@@ -79,14 +81,14 @@ type crashPanic struct{ at string }
 // agglayer is the scripted Agglayer: it stores what it receives, moves certificates only when told, fails on demand and
 // can "crash the node" (panic) before or after registering a certificate. It enforces nothing.
 type agglayer struct {
-	mu       sync.Mutex
-	certs    []*agCert
-	failHeader bool // the next header query fails, with no effect (E1)
-	failSend   bool // the next SendCertificate fails, with no effect (E1)
-	crashAt  string // "", "before_submit", "after_submit"
-	hasPrev  bool
-	onSubmit func(i int, c *agglayertypes.Certificate)
-	calls    int
+	mu           sync.Mutex
+	certs        []*agCert
+	failHeader   bool   // the next header query fails, with no effect (E1)
+	failSend     bool   // the next SendCertificate fails, with no effect (E1)
+	crashAt      string // "", "before_submit", "after_submit"
+	hasPrev      bool
+	onSubmit     func(i int, c *agglayertypes.Certificate)
+	calls        int
 	settledCalls int // GetLatestSettledCertificateHeader calls = reconciliation attempts
 }
 
@@ -422,6 +424,7 @@ func Run(args []string) error {
 	if err := fs.Parse(args); err != nil {
 		return err
 	}
+	sqlfault.BusyTimeout(25) // a syncer write in the middle of one of the node's reads waits 25 ms for the lock, not 5 s
 	var bs []Behaviour
 	if err := tr.ReadJSON(*in, &bs); err != nil {
 		return err
@@ -568,7 +571,24 @@ func runOne(tw *tr.W, root string, idx int, b Behaviour, seed int64) error {
 			}
 			rec.sent = nil
 			n.storage.calls, n.storage.fails = 0, 0
+			l2path := filepath.Join(dir, "l2bridge.sqlite")
+			if s.Midblock > 0 {
+				sqlfault.Arm(l2path, sqlfault.Spec{W: -1, R: s.Midblock, Call: func() {
+					// (runs in the node's goroutine; the driver is waiting for the tick to end. If the node holds the store's lock
+					// the syncer's attempt fails as busy and nothing is added)
+					n0, len0, pool0 := w.nextL2, w.l2exit.Len(), w.nextPool
+					if leaves, claims, err := w.addL2Block(ctx, 1, 0); err == nil {
+						tw.Emit(tr.M{"ev": "block", "num": w.l2last, "leaves": leaves, "claims": claims, "mid": true})
+					} else { // nothing was stored: the scripted chain does not have that block either
+						w.nextL2, w.nextPool = n0, pool0
+						w.l2exit.Truncate(len0)
+					}
+				}})
+			}
 			crashed := n.tick(s.Kind)
+			if s.Midblock > 0 {
+				sqlfault.Disarm(l2path)
+			}
 			n.ag.failHeader, n.ag.failSend, n.ag.crashAt = false, false, ""
 			n.inj.disarm()
 			n.storage.failSaves = 0
